@@ -21,6 +21,7 @@ import (
 	"sort"
 	"strconv"
 	"strings"
+	"time"
 
 	"github.com/parquet-go/parquet-go/variant"
 
@@ -141,6 +142,9 @@ func checkBuilder(c *core.Ctx, t *tree, meta, val []byte, rp any) bool {
 
 // ---- big cases ----
 
+// (sizes of the children, header bytes Go wrote) of the array cases, for cases.v
+var vmHeaders []string
+
 // bigCase describes one deterministic boundary value.
 //
 //	array           [int8, string, binary, "tail"], children total Total bytes
@@ -155,19 +159,28 @@ type bigCase struct {
 	Total int    `json:"total"`
 }
 
+// fill repeats the first period bytes of b over the whole slice.
+func fill(b []byte, period int) {
+	for n := period; n < len(b); n *= 2 {
+		copy(b[n:], b[:n])
+	}
+}
+
 func patString(n int, salt byte) []byte {
 	b := make([]byte, n)
-	for i := range b {
+	for i := 0; i < n && i < 26; i++ {
 		b[i] = 'a' + (byte(i)+salt)%26
 	}
+	fill(b, 26)
 	return b
 }
 
 func patBinary(n int) []byte {
 	b := make([]byte, n)
-	for i := range b {
+	for i := 0; i < n && i < 256; i++ {
 		b[i] = byte(i*7 + 1)
 	}
+	fill(b, 256)
 	return b
 }
 
@@ -386,6 +399,14 @@ func checkBig(c *core.Ctx, bc *bigCase) {
 		c.Mismatch("corr:C19.header", ask, core.Trunc(core.Hexs(val[:min(len(val), len(hdr))]), 200), core.Trunc(core.Hexs(hdr), 200), bc)
 		return
 	}
+	if t.Kind == '[' && len(vmHeaders) < 40 {
+		// re-evaluated inside coqc (cases.v)
+		ns := make([]string, len(sizes))
+		for i, x := range sizes {
+			ns[i] = fmt.Sprintf("%d", x)
+		}
+		vmHeaders = append(vmHeaders, fmt.Sprintf("(%s, %s)", core.CoqList(ns), core.CoqBytes(val[:len(hdr)])))
+	}
 	body := val[len(hdr):]
 	if len(body) != total {
 		c.Mismatch("corr:C19.header", "payload length after the header", fmt.Sprint(len(body)), fmt.Sprint(total), bc)
@@ -475,7 +496,15 @@ func memAvailableGiB() int {
 // runBigCases: every use of offsetSizeCode below / at / above 0xFF, 0xFFFF and
 // 0xFFFFFF, through Encode and Builder.
 func runBigCases(c *core.Ctx) {
+	t0 := time.Now()
+	defer func() { c.Note("threshold cases (bounds.go): %.1fs", time.Since(t0).Seconds()) }()
 	run := func(bc *bigCase) {
+		t1 := time.Now()
+		defer func() {
+			if d := time.Since(t1); d > 30*time.Millisecond && os.Getenv("C19_TIMES") != "" {
+				fmt.Fprintf(os.Stderr, "%s %s %d: %v\n", bc.Shape, bc.API, bc.Total, d)
+			}
+		}()
 		checkBig(c, bc)
 		c.Case("encode/threshold/"+bc.Shape+"/"+bc.API, fmt.Sprintf("%s/%s/%d", bc.Shape, bc.API, bc.Total), true)
 	}
@@ -487,7 +516,8 @@ func runBigCases(c *core.Ctx) {
 				run(&bigCase{Mode: "big", Shape: shape, API: api, Total: total})
 			}
 			for _, total := range big {
-				// quick: at and above the 3/4-byte threshold for the three uses; thorough: all
+				// quick: at and above the 3/4-byte threshold (a 16 MiB case costs 0.03..0.12 s, 12 of them
+				// under 1 s); thorough: also one below and two above, and the unsorted objects
 				if c.Quick() && (shape == "object-unsorted" || total == 0xFFFFFE || total == 0x1000001) {
 					continue
 				}
